@@ -331,6 +331,10 @@ func (fr *frame) sprintf(format value, args []value, lenient bool) value {
 				out = append(out, strBytes(", ")...)
 			}
 			it, _ := args[k].(iface)
+			if it.t == nil {
+				out = append(out, strBytes("<nil>")...)
+				continue
+			}
 			out = append(out, strBytes(typeString(it.t)+"=")...)
 			out = append(out, strBytes(fr.fmtArg(fmtPiece{verb: 'v'}, args[k], lenient))...)
 		}
